@@ -609,9 +609,10 @@ func checkVerbTables(c *Ctx, r *Report, clause string) {
 	// 3.1 switch labels
 	var labels31 []string
 	if fi := need(c, r, clause, "generator/swagen/swagen31.setNewRouteOperation"); fi != nil {
-		for _, sw := range w.switches(fi, w.exprIsJustField(fi, "definitions.RouteMetadata.HttpVerb")) {
-			labels31 = append(labels31, sw.Labels...)
-			sites = append(sites, w.pos(sw.Pos))
+		labs, ps := w.dispatchLabels(fi, w.exprIsJustField(fi, "definitions.RouteMetadata.HttpVerb"))
+		labels31 = append(labels31, labs...)
+		for _, p := range ps {
+			sites = append(sites, w.pos(p))
 		}
 	}
 	ruleSubset(c, r, clause, "routeSupportedHttpVerbs⊆swagen31.setNewRouteOperation-cases", "every verb validation accepts has an arm in the 3.1 emitter (otherwise the operation is silently dropped)", "definitions.routeSupportedHttpVerbs", supported, "swagen31 verb switch", labels31, sites)
